@@ -80,6 +80,7 @@ const (
 	// Closures
 	LoadClosure Code = 120
 	MakeCell    Code = 121
+	LoadCell    Code = 122
 
 	// Partials
 	Partial Code = 130
@@ -212,6 +213,7 @@ func init() {
 		{JumpForward, "JUMP_FORWARD", 1},
 		{Length, "LENGTH", 0},
 		{LoadAttr, "LOAD_ATTR", 1},
+		{LoadCell, "LOAD_CELL", 1},
 		{LoadClosure, "LOAD_CLOSURE", 2},
 		{LoadConst, "LOAD_CONST", 1},
 		{LoadFast, "LOAD_FAST", 1},
